@@ -24,13 +24,13 @@ ASSUMPTIONS = ['tag L and longlong arguments generated below 2^63',
 
 
 def shards(tier, seed):
-    per = 60 if tier == 'quick' else 1500
+    per = 60 if tier == 'quick' else 6000
     groups = common.split(common.ALL_INDEXES, 12)
     out = [{'name': 'm%d' % i, 'what': 'method', 'indexes': g, 'per': per}
            for i, g in enumerate(groups)]
     for i in range(4):
         out.append({'name': 'h%d' % i, 'what': 'header',
-                    'n': 1500 if tier == 'quick' else 40000})
+                    'n': 1500 if tier == 'quick' else 150000})
     cfgs = [common.W_ERROR, common.LOG_DEBUG]
     return common.with_configs(out, cfgs, take=12) + \
         common.with_configs(out[12:13], cfgs, take=1)[1:]
